@@ -198,7 +198,7 @@ int main(int argc, char **argv) {
         for (uint64_t mask = 0; mask < vg::num_graphs(3); ++mask) { vg::EdgeList g = vg::graph_from_mask(3, mask); uint64_t nw = vg::ipow(2, g.m());
             for (uint64_t s = 0; s < nw; ++s) { std::vector<double> w; vg::weighting(a2, g.m(), s, w); auto cyc = vg::all_simple_cycles(g); double opt = vg::reference_mcb<double>(cyc, w, vg::cycle_space_dim(g)).total; unions.push_back({g, {w, opt}}); if (A.get("unions") == "few" && unions.size() >= 3) break; } }
     }
-    struct Large { std::string fam, pat; int ren, ord; };
+    struct Large { std::string fam, pat; int ren, ord; uint64_t widx; };
     std::vector<Large> larges;
     if (mode == "small" || mode == "xref") {
         total_units = vg::num_graphs(n);
@@ -226,18 +226,19 @@ int main(int argc, char **argv) {
         samples.push_back(vg::case_string(sg, sw, "image=subdivide(1,w-1)#0 / renumber:... / edge-order:... / union-left / scale x0.5 (all images of this base are generated)"));
     } else {
         for (auto &f : vr::split(A.get("families"), ',')) for (auto &p : vr::split(A.get("patterns", "U,M2,M3"), ','))
-            for (int ren : {0, 1, 2, 3, 4}) for (int ord : {0, 1, 2}) { if (A.has("few-images") && !((ren == 0 && ord == 0) || (ren == 1 && ord == 1) || (ren == 4 && ord == 2))) continue; larges.push_back({f, p, ren, ord}); }
+            for (uint64_t wi = 0; wi < vg::num_weightings(vg::alphabet(p), 1); ++wi)
+            for (int ren : {0, 1, 2, 3, 4}) for (int ord : {0, 1, 2}) { if (A.has("few-images") && !((ren == 0 && ord == 0) || (ren == 1 && ord == 1) || (ren == 4 && ord == 2))) continue; larges.push_back({f, p, ren, ord, wi}); }
         total_units = larges.size();
         bool use_ref = !A.has("no-ref");
         uint64_t ref_limit = (uint64_t) A.geti("ref-limit", 400000);
         work = [&, use_ref, ref_limit](uint64_t u, uint64_t) {
             const Large &L = larges[(u + seed) % total_units];
             vg::EdgeList base = vg::family(L.fam);
-            std::vector<double> alpha2 = vg::alphabet(L.pat), w; vg::weighting(alpha2, base.m(), 0, w);
+            std::vector<double> alpha2 = vg::alphabet(L.pat), w; vg::weighting(alpha2, base.m(), L.widx, w);
             // image: renumber vertices, then permute insertion order
             std::vector<int> p = renumbering(base.n, L.ren);
             Image im; im.el.n = base.n; for (auto &e : base.e) { int a = p[e.first], b = p[e.second]; im.el.e.push_back({std::min(a, b), std::max(a, b)}); }
-            im.w = w; im.tag = std::string("family=") + L.fam + ",weights=" + L.pat + ",renumber=" + ren_name(L.ren) + ",edge-order=" + (L.ord == 0 ? "identity" : L.ord == 1 ? "reverse" : "rotate");
+            im.w = w; im.tag = std::string("family=") + L.fam + ",weights=" + L.pat + "#" + std::to_string(L.widx) + ",renumber=" + ren_name(L.ren) + ",edge-order=" + (L.ord == 0 ? "identity" : L.ord == 1 ? "reverse" : "rotate");
             int m = base.m();
             if (L.ord) { im.has_order = true; im.order.resize(m); for (int i = 0; i < m; ++i) im.order[i] = L.ord == 1 ? m - 1 - i : (i + m / 3) % m; }
             R.count(C_INPUTS); R.count(C_NONTRIV); R.count(C_IMAGES);
